@@ -278,11 +278,14 @@ def whole(s):
             break
     # synthetic sets (cheap): a q list that does not start at Gamma, unsorted crossing modes, every crystal system with mixed shear keys, lowest temperatures
     if not fails:
-        syn = [dict(seed=s.seed + 11, system="monoclinic", gamma_first=False), dict(seed=s.seed + 12, system="trigonal7", nq=1, lattice=False), dict(seed=s.seed + 13, system="cubic", na=1, nq=2)]
+        syn = [dict(seed=s.seed + 11, system="monoclinic", gamma_first=False), dict(seed=s.seed + 12, system="trigonal7", nq=1, lattice=False), dict(seed=s.seed + 13, system="cubic", na=1, nq=2),
+               dict(seed=s.seed + 14, system="orthorhombic", na=2, nq=2, flat_modes=True), dict(seed=s.seed + 15, system="cubic", na=2, nq=1, flat_modes=True)]
         if s.tier == "thorough":
             syn += [dict(seed=s.seed + 20 + i, system=sy, gamma_first=bool(i % 2), nq=1 + i % 4, na=1 + i % 3) for i, sy in enumerate(["orthorhombic", "monoclinic", "trigonal7", "cubic"] * 3)]
         for j, kw in enumerate(syn):
             tmin, dt, nt = [(0.5, 0.5, 8), (0, 1.0, 8), (0, 250, 8)][j % 3]
+            if kw.get("flat_modes"):
+                tmin, dt, nt = (0, 200, 8)
             it = interps[j % len(interps)]
             st = {"qha": {"settings": {"T_MIN": tmin, "DT": dt, "NT": nt, "DT_SAMPLE": dt}}, "elast": {"settings": {"mode_gamma": {"interpolator": it, "order": 3}}}}
             evals += 1
@@ -296,7 +299,7 @@ def whole(s):
                 break
     s.bounded_standin("C12.whole_calculation(examples re-configured)", "%d of %d (example, interpolator, temperature grid) configurations incl. DT = 0.5 K and "
                       "T_MIN in {0, 0.5}; trigonal7 (c14, c15) and monoclinic (c15, c25, c35, c46) component sets; synthetic sets (q list off Gamma, crossing modes, three "
-                      "systems, DT down to 0.5 K); seed %d" % (len(chosen), len(combos), s.seed),
+                      "systems, DT down to 0.5 K, branches with gamma = 0 and 2e-6); seed %d" % (len(chosen), len(combos), s.seed),
                       evals, len(chosen), fails, ["calculator.Calculator"])
 
 
